@@ -503,6 +503,17 @@ def _structural_rules(ck):
     lib.cache_coherence_rule(ck, "C20-R6", "Pistache::Http::Header::Authorization",
                              "the credential accessors of the Authorization header decode the value the header holds now")
 
+    # ---- R9: the credential accessors' scans make progress (shared with C03-R8; no such scan on today's tree)
+    acc_roots = [f_ for f_ in prog.funcs.values() if f_.blocks and f_.base in ("Pistache::Http::Header::Authorization::getBasicUser", "Pistache::Http::Header::Authorization::getBasicPassword")]
+    if acc_roots:
+        reach9 = {f2.base.replace("Pistache::", "") for f2, _c in lib.callgraph_reach(prog, acc_roots).values()}
+        reach9 |= {prog.owner(f2).base.replace("Pistache::", "") for f2, _c in lib.callgraph_reach(prog, acc_roots).values()}
+        ck.borrow("C03", ["C03-R8"], "C20-R9",
+                  "where the Basic-credential accessors look for the delimiter with the stream cursor's matchers, those scans end: every "
+                  "cursor-driven loop in their call closure definitely consumes input on every way round (a byte such as 0xFF that a loop "
+                  "takes for end-of-stream without moving past it would otherwise hide the delimiter behind it, or spin)",
+                  key_pred=lambda k: k.split("/loop@")[0] in reach9 or k.split("/")[0] in reach9, min_instances=0)
+
     # ---- R7: a scan that walks backwards has a lower bound
     ck.rule("C20-R7", "B loop bound (backward scans)",
             "the coders walk their input forwards, where the end is marked (the size, or the terminator behind a std::string); a loop that "
